@@ -1,4 +1,69 @@
-//! C13 (c): InterruptStackFrameValue::iretq through E4 — filled in when SimCPU is available.
+//! C13 (c): InterruptStackFrameValue::iretq and arbitrary-frame handler entry through E4 (emulated iretq).
+#![allow(static_mut_refs)]
+use crate::b64::*;
 use crate::out::Rep;
+use crate::simcpu::{cpu, run_stepped, Ev, CPU};
 use crate::Args;
-pub fn run(_r: &mut Rep, _a: &Args) {}
+use x86_64::registers::rflags::RFlags;
+use x86_64::registers::segmentation::SegmentSelector;
+use x86_64::structures::idt::InterruptStackFrameValue;
+use x86_64::VirtAddr;
+
+extern "C" fn do_iretq(p: *const InterruptStackFrameValue) -> ! {
+    unsafe { (*p).iretq() }
+}
+
+/// call a diverging function whose final iretq is emulated: execution continues here afterwards
+unsafe fn call_until_iretq(f: extern "C" fn(*const InterruptStackFrameValue) -> !, arg: *const InterruptStackFrameValue) {
+    core::arch::asm!(
+        "push rbx",
+        "push rbp",
+        "lea rax, [rip + 2f]",
+        "mov [{cont}], rax",
+        "mov [{rsps}], rsp",
+        "call {f}",
+        "2:",
+        "pop rbp",
+        "pop rbx",
+        cont = in(reg) core::ptr::addr_of_mut!(CPU.iret_cont),
+        rsps = in(reg) core::ptr::addr_of_mut!(CPU.iret_rsp),
+        f = in(reg) f,
+        in("rdi") arg,
+        out("rax") _, out("r12") _, out("r13") _, out("r14") _, out("r15") _,
+        clobber_abi("C"),
+    );
+}
+
+pub fn iretq_case(r: &mut Rep, rip: u64, cs: u16, fl: u64, rsp: u64, ss: u16) {
+    let v = InterruptStackFrameValue::new(VirtAddr::new(rip), SegmentSelector(cs), RFlags::from_bits_retain(fl), VirtAddr::new(rsp), SegmentSelector(ss));
+    cpu().clear_events();
+    let res = run_stepped(|| unsafe { call_until_iretq(do_iretq, &v) });
+    cpu().iret_cont = 0;
+    let ev = cpu().evs();
+    r.ev(true);
+    let case = format!("iretq {:#x} {:#x} {:#x} {:#x} {:#x}", rip, cs, fl, rsp, ss);
+    let ok = res.is_ok() && ev.len() == 1 && matches!(ev[0], Ev::Iretq(a, b, c, d, e) if a == rip && b & 0xffff == cs as u64 && c == fl && d == rsp && e & 0xffff == ss as u64);
+    if !ok {
+        r.viol("C13|InterruptStackFrameValue::iretq|does-not-transfer-to-exactly-the-frame", &case, &format!("{:x?}", ev));
+    }
+}
+
+pub fn run(r: &mut Rep, a: &Args) {
+    crate::simcpu::init();
+    let addrs = canon_small();
+    let flagsets = [0x2u64, 0x202, 0x246, 0x3202, 0x0004_0202, 0x0020_0ed7];
+    let sels = [(0x08u16, 0x10u16), (0x33, 0x2b), (0x1b, 0x23), (0xfff8, 0)];
+    let mut n = 0;
+    for (i, &rip) in addrs.iter().enumerate() {
+        for (j, &rsp) in addrs.iter().enumerate() {
+            if !a.thorough() && (i + 2 * j) % 7 != 0 {
+                continue;
+            }
+            let fl = flagsets[(i + j) % flagsets.len()];
+            let (cs, ss) = sels[(i * 3 + j) % sels.len()];
+            iretq_case(r, rip, cs, fl, rsp, ss);
+            n += 1;
+        }
+    }
+    r.note(&format!("iretq on {} frame values (canonical boundary RIP x RSP, 6 RFLAGS patterns, 4 selector pairs) with the final iretq emulated and its popped frame compared", n));
+}
